@@ -1,9 +1,26 @@
 import PyamgV.Driver.Util
-/-! Driver ops of extension task E25 (op names prefixed `ext_`). -/
+import PyamgV.Model.ExtRsCk
+/-! Driver ops of extension task E25 (op names prefixed `ext_`): the checked (`Ck`) model of the whole
+`rs_cf_splitting` (`Model/ExtRsCk.lean`).  Output: the splitting, then `;ok` / `;fault` (an index
+left its array, a count/position went negative, or the main loop needed more than `n` iterations).
+The model keeps the CSR arrays as naturals: a request with a negative (or unparsable) entry is
+answered `rejected`, never defaulted. -/
 namespace PyamgV.Drv.ExtE25
 open PyamgV PyamgV.Drv
 
+def strictNats (s : String) : Option (Array Nat) :=
+  (listOf s).foldl (fun acc t => do
+    let a ← acc
+    let v ← t.toNat?
+    pure (a.push v)) (some #[])
+
 def handle : List String → Option String
+  | ["ext_rs_whole", n, sp, sj, tp, tj] =>
+    match n.toNat?, strictNats sp, strictNats sj, strictNats tp, strictNats tj with
+    | some n, some sp, some sj, some tp, some tj =>
+      let r := RS.runCk ⟨n, sp, sj⟩ ⟨n, tp, tj⟩
+      some <| showInts r.val ++ (if r.ok then ";ok" else ";fault")
+    | _, _, _, _, _ => some "rejected"
   | _ => none
 
 end PyamgV.Drv.ExtE25
